@@ -1,13 +1,23 @@
 /-
-  Property C11 — lcp_lemke: success means a genuine solution.
+  Property C11 — lcp_lemke: success means a genuine solution; solvable classes are solved.
   Theorems about the definitions of `QEModel.C11` (the ones `qedriver_c11` executes),
   over an arbitrary linearly ordered field `K` (exact arithmetic; the code's tolerances
   `tol_piv`, `tol_ratio_diff` are parameters of the model: the structural theorems hold
-  for every `tol_piv ≥ 0` and every `tol_ratio_diff`, the feasibility/solution theorems
-  for tolerances `0`).
+  for every `tol_piv ≥ 0` and every `tol_ratio_diff`, the feasibility / solution /
+  completeness theorems for tolerances `0`).
 
   Conventions (lcp_lemke.py 196-258): tableau `n × (2n+2)`, columns `w` (0..n-1),
   `z` (n..2n-1), `z₀` (2n), right-hand side (2n+1); `basis i` = basic variable of row `i`.
+
+  Clauses of the property and where they are proved (all for every `n`, `M`, `q`, `d > 0`):
+  * success ⇒ `z ≥ 0`, `Mz+q ≥ 0`, `z_i (Mz+q)_i = 0`          `lemke_success_solves`
+  * positive definite / strictly copositive ⇒ success for every q   `lemke_solves_posDef`,
+                                                                    `lemke_solves_strictly_copositive`
+  * P-matrices ⇒ success for every q     `lemke_solves_P_matrix_signReversalForm` (hypothesis in
+      the sign-reversal form; Fiedler–Pták equivalence with the minor definition not proved),
+      `lemke_solves_triangular_or_diag_dominant` (concrete classes, unconditional)
+  * PSD: status 2 ⇒ no solution (even infeasible)                `lemke_ray_psd_infeasible`
+  * no cycling: status 1 impossible for `max_iter > C(2n+1,n)·2n`   `lemke_terminates`
 -/
 import QEModel.C11
 import QEProofs.Lemmas.C11Run
@@ -16,6 +26,9 @@ import QEProofs.Lemmas.C11Psd
 import QEProofs.Lemmas.C11LexMin
 import QEProofs.Lemmas.C11LexPos
 import QEProofs.Lemmas.C11Rev
+import QEProofs.Lemmas.C11Complete
+import QEProofs.Lemmas.C11Term
+import QEProofs.Lemmas.C11PClasses
 import Mathlib.Algebra.Order.Field.Rat
 import Mathlib.Tactic.NormNum
 
@@ -340,7 +353,7 @@ theorem lemke_lex_feasible (n : ℕ) (hn : 0 < n) (Mm : ℕ → ℕ → K) (q d 
     again `r`, pivoting there restores every entry of the old tableau, and the basis update is
     undone. This is the key lemma of Lemke's finiteness and completeness arguments (an almost
     complementary basis has at most two almost complementary neighbours); the path argument built
-    on it is not formalised (see the `_partial` theorems). -/
+    on it is `lemke_never_returns_to_primary_ray` / `lemke_terminates`. -/
 theorem lemke_step_reversible {n : ℕ} {T : M K} {basis : ℕ → ℕ} {c : ℕ} (hn : 0 < n)
     (Mm : ℕ → ℕ → K) (q d : ℕ → K) (h : Inv1 n (initTableau n Mm q d) T basis)
     (he : Enter n basis c) (hlp : LP n T) (hf : (lexMinRatio T c 0 (0 : K) 0).1 = true) :
@@ -415,61 +428,6 @@ theorem posDef_noSignReversal (n : ℕ) (Mm : ℕ → ℕ → K) (h : PosDef n M
     Finset.sum_nonpos (fun i hi => hx i (mem_range.mp hi))
   linarith
 
-/-- **T2 (partial) strictly copositive / positive definite `M`: a ray can only be a
-    primary-type ray.** (tolerances 0, `d > 0`, some `q_i < 0`.) If `M` is strictly copositive
-    and the run ends with status 2, then the final tableau is one of the *primary* ray: the
-    column without positive entry is a `w` column `c < n`, every basic variable is a `w` or the
-    artificial variable, and the returned `z` is `0`.
-    *Missing for "success for every q"*: that the complementary pivoting path never returns to
-    such a tableau after the first pivot (Lemke's path argument: under the lexicographic rule
-    every almost complementary basis has exactly two almost complementary neighbours, so the
-    path cannot re-enter its starting vertex); this is decided by the spec run only. -/
-theorem lemke_ray_strictly_copositive_partial (n : ℕ) (hn : 0 < n) (Mm : ℕ → ℕ → K) (q d : ℕ → K)
-    (hd : ∀ i, i < n → 0 < d i) (hcop : StrictCop n Mm) (maxIter : ℕ)
-    (hs : (lemkeRun n Mm q d maxIter (0 : K) 0).status = 2) :
-    ∃ c, c < n ∧ (∀ i, i < n → (lemkeRun n Mm q d maxIter (0 : K) 0).basis i ≠ c) ∧
-      (∀ k, k < n → (lemkeRun n Mm q d maxIter (0 : K) 0).T.get k c ≤ 0) ∧
-      (∀ i, i < n → ((lemkeRun n Mm q d maxIter (0 : K) 0).basis i = 2 * n ∨
-        (lemkeRun n Mm q d maxIter (0 : K) 0).basis i < n)) ∧
-      ∀ j, j < n → getSolution n (lemkeRun n Mm q d maxIter (0 : K) 0).T
-        (lemkeRun n Mm q d maxIter (0 : K) 0).basis j = 0 := by
-  obtain ⟨h1, he, hc⟩ := firstPivot_inv1 n Mm q d hn (fun i hi => ne_of_gt (hd i hi)) (0 : K)
-  have hI := (lemkeLoop_inv1 hn (initTableau n Mm q d) (0 : K) 0 (le_refl _) (maxIter - 1)
-    _ _ _ 1 h1 he hc).1
-  obtain ⟨c, hc2, hec, hcol⟩ := lemkeLoop_ray hn Mm q d (maxIter - 1) _ _ _ 1 h1 he hc hs
-  obtain ⟨hcn, hb⟩ := ray_cop_primary hn Mm q d hd hcop hI hec hc2 hcol
-  refine ⟨c, hcn, hec.notin, hcol, hb, ?_⟩
-  intro j hj
-  have hI' : Inv1 n (initTableau n Mm q d) (lemkeRun n Mm q d maxIter (0 : K) 0).T
-      (lemkeRun n Mm q d maxIter (0 : K) 0).basis := hI
-  rw [getSolution_eq hI' j hj]
-  apply basicSol_eq_zero
-  intro a ha e
-  rcases hb a ha with e' | e'
-  · have : (lemkeRun n Mm q d maxIter (0 : K) 0).basis a = 2 * n := e'
-    omega
-  · have : (lemkeRun n Mm q d maxIter (0 : K) 0).basis a < n := e'
-    omega
-
-/-- **T2 (partial) P-matrices, in the sign-reversal form.** Same conclusion as
-    `lemke_ray_strictly_copositive_partial` when `M` reverses the sign of no non-zero vector
-    (`NoSignReversal`, equivalent to "all principal minors positive" by the Fiedler–Pták theorem,
-    which is not proved here): a status-2 exit can only happen at a primary-ray tableau.
-    *Missing*: the same path argument; the equivalence with the minor definition. -/
-theorem lemke_ray_P_matrix_partial (n : ℕ) (hn : 0 < n) (Mm : ℕ → ℕ → K) (q d : ℕ → K)
-    (hd : ∀ i, i < n → 0 < d i) (hP : NoSignReversal n Mm) (maxIter : ℕ)
-    (hs : (lemkeRun n Mm q d maxIter (0 : K) 0).status = 2) :
-    ∃ c, c < n ∧ (∀ i, i < n → (lemkeRun n Mm q d maxIter (0 : K) 0).basis i ≠ c) ∧
-      (∀ k, k < n → (lemkeRun n Mm q d maxIter (0 : K) 0).T.get k c ≤ 0) ∧
-      (∀ i, i < n → ((lemkeRun n Mm q d maxIter (0 : K) 0).basis i = 2 * n ∨
-        (lemkeRun n Mm q d maxIter (0 : K) 0).basis i < n)) := by
-  obtain ⟨h1, he, hc⟩ := firstPivot_inv1 n Mm q d hn (fun i hi => ne_of_gt (hd i hi)) (0 : K)
-  have hI := (lemkeLoop_inv1 hn (initTableau n Mm q d) (0 : K) 0 (le_refl _) (maxIter - 1)
-    _ _ _ 1 h1 he hc).1
-  obtain ⟨c, hc2, hec, hcol⟩ := lemkeLoop_ray hn Mm q d (maxIter - 1) _ _ _ 1 h1 he hc hs
-  obtain ⟨hcn, hb⟩ := ray_P_primary hn Mm q d hd hP hI hec hc2 hcol
-  exact ⟨c, hcn, hec.notin, hcol, hb⟩
-
 /-- **the artificial variable is basic exactly until success** (every tolerance `tp ≥ 0`,
     `d_i ≠ 0`): status 0 ⇒ `2n` is not in the final basis; status 1 or 2 ⇒ it still is. -/
 theorem lemke_artificial_basic_iff (n : ℕ) (hn : 0 < n) (Mm : ℕ → ℕ → K) (q d : ℕ → K)
@@ -486,45 +444,6 @@ theorem lemke_artificial_basic_iff (n : ℕ) (hn : 0 < n) (Mm : ℕ → ℕ → 
     rw [firstPivot_snd]
     unfold setBasis
     rw [if_pos rfl]
-
-/-- **T2 (partial) positive semidefinite `M`: status 2 certifies infeasibility.**
-    (tolerances 0, `d > 0`, some `q_i < 0`.) If `M` is PSD (`yᵀMy ≥ 0`, `M` not necessarily
-    symmetric) and the run ends with status 2 at a tableau that is *not* of primary-ray type
-    (some `z_j` is basic, e.g. the returned `z ≠ 0`, or the column without positive entry is a `z`
-    column) and whose artificial variable is at a positive level, then `{z ≥ 0, Mz + q ≥ 0}` is
-    empty — a fortiori the LCP has no solution.
-    *Missing for the clause "status 2 only if no solution"*: (i) the exclusion of a return to a
-    primary-ray tableau (same path argument as for `lemke_ray_strictly_copositive_partial`),
-    (ii) the degenerate exit with the artificial variable basic at level 0 (then the returned
-    `z` is in fact a solution although status 2 is reported; with exact lexicographic pivoting
-    this was not observed, with a tie tolerance below the rounding noise it was, see the harness
-    counter `nondefault-tol:psd-ray-but-solvable`). Both are left to the spec run. -/
-theorem lemke_ray_psd_infeasible_partial (n : ℕ) (hn : 0 < n) (Mm : ℕ → ℕ → K) (q d : ℕ → K)
-    (hd : ∀ i, i < n → 0 < d i) (hq : ∃ i, i < n ∧ q i < 0) (hpsd : PSD n Mm) (maxIter : ℕ)
-    (hs : (lemkeRun n Mm q d maxIter (0 : K) 0).status = 2) :
-    ∃ c, c < 2 * n ∧ (∀ i, i < n → (lemkeRun n Mm q d maxIter (0 : K) 0).basis i ≠ c) ∧
-      (∀ k, k < n → (lemkeRun n Mm q d maxIter (0 : K) 0).T.get k c ≤ 0) ∧
-      (¬ (c < n ∧ ∀ a, a < n → ((lemkeRun n Mm q d maxIter (0 : K) 0).basis a = 2 * n ∨
-            (lemkeRun n Mm q d maxIter (0 : K) 0).basis a < n)) →
-        0 < basicSol n (lemkeRun n Mm q d maxIter (0 : K) 0).T
-            (lemkeRun n Mm q d maxIter (0 : K) 0).basis (2 * n) →
-        ¬ ∃ z : ℕ → K, (∀ j, j < n → 0 ≤ z j) ∧
-          (∀ i, i < n → 0 ≤ ∑ j ∈ range n, Mm i j * z j + q i)) := by
-  obtain ⟨h1, he, hc⟩ := firstPivot_inv1 n Mm q d hn (fun i hi => ne_of_gt (hd i hi)) (0 : K)
-  have hfe := firstPivot_feas n Mm q d hn hd hq
-  have hI := (lemkeLoop_inv1 hn (initTableau n Mm q d) (0 : K) 0 (le_refl _) (maxIter - 1)
-    _ _ _ 1 h1 he hc).1
-  have hF := lemkeLoop_feas hn (initTableau n Mm q d) (maxIter - 1) _ _ _ 1 h1 he hc hfe
-  obtain ⟨c, hc2, hec, hcol⟩ := lemkeLoop_ray hn Mm q d (maxIter - 1) _ _ _ 1 h1 he hc hs
-  refine ⟨c, hc2, hec.notin, hcol, ?_⟩
-  intro hnp hB
-  apply ray_psd_infeasible hn Mm q d hd hpsd hI hF hec hc2 hcol _ hB
-  by_contra hA
-  apply hnp
-  apply ray_primary_of_zh_zero hn Mm q d hd hI hec hc2 hcol
-  intro j hj
-  by_contra hne
-  exact hA ⟨j, hj, hne⟩
 
 /-- **iteration counter and status** (every input, every tolerance): `status ∈ {0,1,2}`;
     `num_iter ≤ max(max_iter, 1)` (the first pivot is made unconditionally); status 1 is
@@ -610,6 +529,183 @@ theorem lemke_no_exception_of_pos (n : ℕ) (Mm : ℕ → ℕ → K) (q d : ℕ 
     · exact absurd h (by simp)
     · exact h.symm ▸ rfl
 
+/-! ## completeness (round 2): the path argument and its consequences -/
+
+/-- crude bound on the number of passes of the main loop: (number of `n`-subsets of the `2n+1`
+    variables) × (number of entering columns) -/
+def iterBound (n : ℕ) : ℕ := (2 * n + 1).choose n * (2 * n)
+
+/-- the library's default `max_iter = 10^6` is above the bound for every `n ≤ 8` (the property's
+    quantifier is `n ≤ 6`), so the completeness theorems below apply to default calls -/
+theorem iterBound_lt_default (n : ℕ) (hn : n ≤ 8) : iterBound n < 10 ^ 6 := by
+  unfold iterBound
+  have : n = 0 ∨ n = 1 ∨ n = 2 ∨ n = 3 ∨ n = 4 ∨ n = 5 ∨ n = 6 ∨ n = 7 ∨ n = 8 := by omega
+  rcases this with e | e | e | e | e | e | e | e | e <;> subst e <;> decide
+
+/-- **T2 the run never returns to a primary-ray tableau** (tolerances 0, `d > 0`, some
+    `q_i < 0`, every `M`): at a status-2 exit the direction of the ray (`lemke_ray_termination`)
+    has a non-zero `z` component. Proof: the step map on (set of basic variables, entering
+    column) is well defined (`rows_determined`: a basis set determines the rows of the tableau;
+    the lexicographic minimiser is unique) and reversible (`lemke_step_reversible`); a return to
+    the tableau of the primary ray — the only lexicographically feasible tableau with basis
+    `{z₀} ∪ {w_i : i ≠ r}` is the one after the first pivot — would make the path a palindrome,
+    which has no middle. -/
+theorem lemke_never_returns_to_primary_ray (n : ℕ) (hn : 0 < n) (Mm : ℕ → ℕ → K) (q d : ℕ → K)
+    (hd : ∀ i, i < n → 0 < d i) (hq : ∃ i, i < n ∧ q i < 0) (maxIter : ℕ)
+    (hs : (lemkeRun n Mm q d maxIter (0 : K) 0).status = 2) :
+    ∃ c, c < 2 * n ∧ (∀ i, i < n → (lemkeRun n Mm q d maxIter (0 : K) 0).basis i ≠ c) ∧
+      (∀ k, k < n → (lemkeRun n Mm q d maxIter (0 : K) 0).T.get k c ≤ 0) ∧
+      ∃ j, j < n ∧ rayDir n (lemkeRun n Mm q d maxIter (0 : K) 0).T
+        (lemkeRun n Mm q d maxIter (0 : K) 0).basis c (n + j) ≠ 0 := by
+  obtain ⟨c, hc, he, hcol, hA⟩ := ray_zh_ne_zero n Mm q d hn hd hq maxIter hs
+  exact ⟨c, hc, he.notin, hcol, hA⟩
+
+/-- **T2 finite termination** (every `M`, `q`, `d > 0`): no two states of the run have the same
+    entering column and the same set of basic variables, so the loop body runs fewer than
+    `iterBound n = C(2n+1,n)·2n` times; with `max_iter` above that bound status 1 is never
+    reported. (No cycling under the lexicographic rule.) -/
+theorem lemke_terminates (n : ℕ) (hn : 0 < n) (Mm : ℕ → ℕ → K) (q d : ℕ → K)
+    (hd : ∀ i, i < n → 0 < d i) (maxIter : ℕ) (hm : iterBound n < maxIter) :
+    (lcpLemke n Mm q d maxIter (0 : K) 0).status ≠ 1 := by
+  unfold lcpLemke
+  by_cases ht : trivialExit n q = true
+  · rw [if_pos ht]; simp
+  · rw [if_neg ht]
+    have hq : ∃ i, i < n ∧ q i < 0 := by
+      by_contra hne
+      apply ht
+      rw [trivialExit_iff]
+      intro i hi
+      by_contra hlt
+      exact hne ⟨i, hi, not_le.mp hlt⟩
+    exact run_status_ne_one n Mm q d hn hd hq maxIter hm
+
+omit [IsStrictOrderedRing K] in
+/-- status of the non-trivial branch is what `lcpLemke` reports -/
+theorem lcpLemke_status_of_nontrivial (n : ℕ) (Mm : ℕ → ℕ → K) (q d : ℕ → K) (maxIter : ℕ)
+    (tp td : K) (ht : ¬ trivialExit n q = true) :
+    (lcpLemke n Mm q d maxIter tp td).status = (lemkeRun n Mm q d maxIter tp td).status := by
+  unfold lcpLemke
+  rw [if_neg ht]
+
+theorem nontrivial_neg (n : ℕ) (q : ℕ → K) (ht : ¬ trivialExit n q = true) :
+    ∃ i, i < n ∧ q i < 0 := by
+  by_contra hne
+  apply ht
+  rw [trivialExit_iff]
+  intro i hi
+  by_contra hlt
+  exact hne ⟨i, hi, not_le.mp hlt⟩
+
+/-- a run that is neither cut by the limit nor ended on a ray is a success -/
+theorem lemke_success_of_no_ray (n : ℕ) (hn : 0 < n) (Mm : ℕ → ℕ → K) (q d : ℕ → K)
+    (hd : ∀ i, i < n → 0 < d i) (maxIter : ℕ) (hm : iterBound n < maxIter)
+    (hray : (∃ i, i < n ∧ q i < 0) → (lemkeRun n Mm q d maxIter (0 : K) 0).status ≠ 2) :
+    (lcpLemke n Mm q d maxIter (0 : K) 0).success = true ∧
+    LCPSol n Mm q (lcpLemke n Mm q d maxIter (0 : K) 0).z := by
+  have hsucc : (lcpLemke n Mm q d maxIter (0 : K) 0).success = true := by
+    rw [lemke_success_iff_status]
+    have h1 := lemke_terminates n hn Mm q d hd maxIter hm
+    have h2 := (lemke_num_iter n Mm q d maxIter (0 : K) 0).1
+    by_cases ht : trivialExit n q = true
+    · exact (lemke_trivial n Mm q d maxIter 0 0 ((trivialExit_iff n q).mp ht)).2.1
+    · have h3 := hray (nontrivial_neg n q ht)
+      rw [← lcpLemke_status_of_nontrivial n Mm q d maxIter 0 0 ht] at h3
+      omega
+  exact ⟨hsucc, lemke_success_solves n hn Mm q d hd maxIter hsucc⟩
+
+/-- **T2 strictly copositive `M` (in particular positive definite): `lcp_lemke` succeeds for
+    every `q`** and every covering vector `d > 0` (tolerances 0, `max_iter > iterBound n`): it
+    reports success and the returned `z` solves the LCP. A ray exit would have direction
+    `zh ≠ 0` (`lemke_never_returns_to_primary_ray`) with `zhᵀ M zh = −(zhᵀd)·z₀h ≤ 0`, impossible
+    for a strictly copositive matrix. -/
+theorem lemke_solves_strictly_copositive (n : ℕ) (hn : 0 < n) (Mm : ℕ → ℕ → K) (q d : ℕ → K)
+    (hd : ∀ i, i < n → 0 < d i) (hcop : StrictCop n Mm) (maxIter : ℕ) (hm : iterBound n < maxIter) :
+    (lcpLemke n Mm q d maxIter (0 : K) 0).success = true ∧
+    LCPSol n Mm q (lcpLemke n Mm q d maxIter (0 : K) 0).z :=
+  lemke_success_of_no_ray n hn Mm q d hd maxIter hm
+    (fun hq => run_no_ray_cop n Mm q d hn hd hq hcop maxIter)
+
+/-- status 2 never occurs for a strictly copositive `M`, whatever the iteration limit -/
+theorem lemke_no_ray_strictly_copositive (n : ℕ) (hn : 0 < n) (Mm : ℕ → ℕ → K) (q d : ℕ → K)
+    (hd : ∀ i, i < n → 0 < d i) (hcop : StrictCop n Mm) (maxIter : ℕ) :
+    (lcpLemke n Mm q d maxIter (0 : K) 0).status ≠ 2 := by
+  by_cases ht : trivialExit n q = true
+  · rw [(lemke_trivial n Mm q d maxIter 0 0 ((trivialExit_iff n q).mp ht)).2.1]; decide
+  · rw [lcpLemke_status_of_nontrivial n Mm q d maxIter 0 0 ht]
+    exact run_no_ray_cop n Mm q d hn hd (nontrivial_neg n q ht) hcop maxIter
+
+/-- **T2 positive definite `M`** (`yᵀMy > 0` for `y ≠ 0`, `M` not necessarily symmetric):
+    success and a genuine solution for every `q`, every `d > 0`. -/
+theorem lemke_solves_posDef (n : ℕ) (hn : 0 < n) (Mm : ℕ → ℕ → K) (q d : ℕ → K)
+    (hd : ∀ i, i < n → 0 < d i) (hpd : PosDef n Mm) (maxIter : ℕ) (hm : iterBound n < maxIter) :
+    (lcpLemke n Mm q d maxIter (0 : K) 0).success = true ∧
+    LCPSol n Mm q (lcpLemke n Mm q d maxIter (0 : K) 0).z :=
+  lemke_solves_strictly_copositive n hn Mm q d hd (posDef_strictCop n Mm hpd) maxIter hm
+
+/-- **T2 P-matrices, hypothesis in the sign-reversal form** (`NoSignReversal`:
+    `(∀ i, x_i (Mx)_i ≤ 0) → x = 0`; by the Fiedler–Pták theorem this is equivalent to "all
+    principal minors positive" — that equivalence is *not* proved here, the theorem is about the
+    sign-reversal property as stated): success and a genuine solution for every `q`, `d > 0`. -/
+theorem lemke_solves_P_matrix_signReversalForm (n : ℕ) (hn : 0 < n) (Mm : ℕ → ℕ → K) (q d : ℕ → K)
+    (hd : ∀ i, i < n → 0 < d i) (hP : NoSignReversal n Mm) (maxIter : ℕ)
+    (hm : iterBound n < maxIter) :
+    (lcpLemke n Mm q d maxIter (0 : K) 0).success = true ∧
+    LCPSol n Mm q (lcpLemke n Mm q d maxIter (0 : K) 0).z :=
+  lemke_success_of_no_ray n hn Mm q d hd maxIter hm
+    (fun hq => run_no_ray_P n Mm q d hn hd hq hP maxIter)
+
+/-- **T2 concrete P-matrix classes** (no unproved equivalence involved): triangular matrices
+    with positive diagonal and strictly row-diagonally-dominant matrices with positive diagonal
+    (the classes the harness generates under "p") have the sign-reversal property, hence
+    `lcp_lemke` succeeds on them for every `q`, `d > 0`. -/
+theorem lemke_solves_triangular_or_diag_dominant (n : ℕ) (hn : 0 < n) (Mm : ℕ → ℕ → K) (q d : ℕ → K)
+    (hd : ∀ i, i < n → 0 < d i)
+    (hM : LowerTriPos n Mm ∨ UpperTriPos n Mm ∨ RowDiagDom n Mm) (maxIter : ℕ)
+    (hm : iterBound n < maxIter) :
+    (lcpLemke n Mm q d maxIter (0 : K) 0).success = true ∧
+    LCPSol n Mm q (lcpLemke n Mm q d maxIter (0 : K) 0).z := by
+  apply lemke_solves_P_matrix_signReversalForm n hn Mm q d hd _ maxIter hm
+  rcases hM with h | h | h
+  · exact lowerTriPos_noSignReversal n Mm h
+  · exact upperTriPos_noSignReversal n Mm h
+  · exact rowDiagDom_noSignReversal n Mm h
+
+/-- **T2 positive semidefinite `M`: status 2 is reported only if the problem is infeasible**
+    (`{z ≥ 0, Mz + q ≥ 0} = ∅`; a fortiori the LCP has no solution). `M` need not be symmetric.
+    Covers the degenerate exit with the artificial variable basic at level 0: the Farkas
+    argument is carried out lexicographically (right-hand side and `w`-block columns), using
+    `lemke_lex_feasible`. -/
+theorem lemke_ray_psd_infeasible (n : ℕ) (hn : 0 < n) (Mm : ℕ → ℕ → K) (q d : ℕ → K)
+    (hd : ∀ i, i < n → 0 < d i) (hpsd : PSD n Mm) (maxIter : ℕ)
+    (hs : (lcpLemke n Mm q d maxIter (0 : K) 0).status = 2) :
+    ¬ ∃ z : ℕ → K, (∀ j, j < n → 0 ≤ z j) ∧
+      (∀ i, i < n → 0 ≤ ∑ j ∈ range n, Mm i j * z j + q i) := by
+  by_cases ht : trivialExit n q = true
+  · rw [(lemke_trivial n Mm q d maxIter 0 0 ((trivialExit_iff n q).mp ht)).2.1] at hs
+    exact absurd hs (by decide)
+  · rw [lcpLemke_status_of_nontrivial n Mm q d maxIter 0 0 ht] at hs
+    exact run_ray_psd n Mm q d hn hd (nontrivial_neg n q ht) hpsd maxIter hs
+
+/-- corollary: for PSD `M` status 2 implies that the LCP has no solution -/
+theorem lemke_ray_psd_no_solution (n : ℕ) (hn : 0 < n) (Mm : ℕ → ℕ → K) (q d : ℕ → K)
+    (hd : ∀ i, i < n → 0 < d i) (hpsd : PSD n Mm) (maxIter : ℕ)
+    (hs : (lcpLemke n Mm q d maxIter (0 : K) 0).status = 2) :
+    ¬ ∃ z : ℕ → K, LCPSol n Mm q z := by
+  rintro ⟨z, h1, h2, _⟩
+  exact lemke_ray_psd_infeasible n hn Mm q d hd hpsd maxIter hs ⟨z, h1, h2⟩
+
+/-- **T2 PSD `M`, feasible problem ⇒ solved**: if `{z ≥ 0, Mz + q ≥ 0}` is non-empty then
+    `lcp_lemke` reports success and returns a solution (`max_iter > iterBound n`). -/
+theorem lemke_solves_psd_of_feasible (n : ℕ) (hn : 0 < n) (Mm : ℕ → ℕ → K) (q d : ℕ → K)
+    (hd : ∀ i, i < n → 0 < d i) (hpsd : PSD n Mm) (maxIter : ℕ) (hm : iterBound n < maxIter)
+    (hfeas : ∃ z : ℕ → K, (∀ j, j < n → 0 ≤ z j) ∧
+      (∀ i, i < n → 0 ≤ ∑ j ∈ range n, Mm i j * z j + q i)) :
+    (lcpLemke n Mm q d maxIter (0 : K) 0).success = true ∧
+    LCPSol n Mm q (lcpLemke n Mm q d maxIter (0 : K) 0).z :=
+  lemke_success_of_no_ray n hn Mm q d hd maxIter hm
+    (fun hq hs => run_ray_psd n Mm q d hn hd hq hpsd maxIter hs hfeas)
+
 /-! ## non-vacuity: concrete instances satisfy the hypotheses and exercise the conclusions -/
 
 /-- docstring instance of `lcp_lemke` -/
@@ -648,9 +744,7 @@ example : ∃ i, i < 3 ∧ rayq i < 0 := ⟨0, by norm_num, by decide +kernel⟩
 -- `lemke_ray_termination` applies to it
 example := lemke_ray_termination 3 (by norm_num) rayM rayq exd exd_pos ⟨0, by norm_num, by decide +kernel⟩
   1000 (by decide +kernel)
--- `StrictCop` / `PosDef` are satisfiable (identity, n = 2); the remaining hypothesis `status = 2` of
--- `lemke_ray_strictly_copositive_partial` is, by Lemke's theorem, never met for such `M` — the theorem
--- reduces that statement to the exclusion of a return to a primary-ray tableau.
+-- `StrictCop` / `PosDef` are satisfiable (identity, n = 2)
 example : PosDef 2 (fun i j => if i = j then (1 : ℚ) else 0) := by
   intro y ⟨j, hj, hne⟩
   simp only [Finset.sum_range_succ, Finset.sum_range_zero]
@@ -675,9 +769,10 @@ example : (lemkeRun 2 skM skq exd 1000 (0 : ℚ) 0).status = 2 := by decide +ker
 example : (List.range 2).map (lemkeRun 2 skM skq exd 1000 (0 : ℚ) 0).basis = [2, 4] := by decide +kernel
 example : 0 < basicSol 2 (lemkeRun 2 skM skq exd 1000 (0 : ℚ) 0).T
     (lemkeRun 2 skM skq exd 1000 (0 : ℚ) 0).basis 4 := by decide +kernel
--- all hypotheses of `lemke_ray_psd_infeasible_partial` hold on this instance
-example := lemke_ray_psd_infeasible_partial 2 (by norm_num) skM skq exd (fun _ _ => by norm_num [exd])
-  ⟨0, by norm_num, by decide +kernel⟩ skM_psd 1000 (by decide +kernel)
+-- all hypotheses of `lemke_ray_psd_infeasible` hold on this instance (status 2 is reached)
+example := lemke_ray_psd_infeasible 2 (by norm_num) skM skq exd (fun _ _ => by norm_num [exd])
+  skM_psd 1000 (by decide +kernel)
+
 example : NoSignReversal 2 (fun i j => if i = j then (1 : ℚ) else 0) := by
   apply posDef_noSignReversal
   intro y ⟨j, hj, hne⟩
@@ -689,7 +784,7 @@ example : NoSignReversal 2 (fun i j => if i = j then (1 : ℚ) else 0) := by
   · have := mul_self_pos.mpr hne; nlinarith [mul_self_nonneg (y 0)]
 -- the witness matrix of `first_pivot_buggy_negative_z_witness` is positive definite:
 -- yᵀMy = 3a² + (a−b)² + (b+c)² + 2c²
-example : PosDef 3 witM := by
+theorem witM_posDef : PosDef 3 witM := by
   intro y ⟨j, hj, hne⟩
   simp only [Finset.sum_range_succ, Finset.sum_range_zero]
   have e : witM 0 0 = 4 ∧ witM 0 1 = -1 ∧ witM 0 2 = 0 ∧ witM 1 0 = -1 ∧ witM 1 1 = 2 ∧ witM 1 2 = 1 ∧
@@ -735,5 +830,20 @@ example : ∀ i, i < 2 → (0 : ℚ) ≤ (fnOfList [0, 3] : ℕ → ℚ) i := by
   intro i hi
   have : i = 0 ∨ i = 1 := by omega
   rcases this with h | h <;> subst h <;> decide +kernel
+
+-- `lemke_solves_posDef` on the positive definite witness matrix: iterBound 3 = 210 < 1000
+example := lemke_solves_posDef 3 (by norm_num) witM witq (fun _ => 1) (fun _ _ => by norm_num)
+  witM_posDef 1000 (by decide)
+-- the docstring matrix [[1,0,0],[2,1,0],[2,2,1]] is lower triangular with positive diagonal
+example : LowerTriPos 3 exM := by
+  constructor
+  · intro i hi
+    have : i = 0 ∨ i = 1 ∨ i = 2 := by omega
+    rcases this with e | e | e <;> subst e <;> decide +kernel
+  · intro i j hi hj hij
+    have : (i = 0 ∧ j = 1) ∨ (i = 0 ∧ j = 2) ∨ (i = 1 ∧ j = 2) := by omega
+    rcases this with ⟨e1, e2⟩ | ⟨e1, e2⟩ | ⟨e1, e2⟩ <;> subst e1 <;> subst e2 <;> decide +kernel
+-- `lemke_terminates`: hypotheses are satisfiable (n = 3, limit 1000)
+example : iterBound 3 < 1000 := by decide
 
 end QE.C11
